@@ -211,9 +211,66 @@ func c18GenChain(h *H) *c18Case {
 	return c
 }
 
-func c18GenCase(h *H) *c18Case {
+// c18GenHardlinkFamily: an ordinary snapshot with a hard link group f1, f2 (optionally inside a
+// directory), restored into a target in which the FIRST member already exists as a symlink to a
+// file outside. With --overwrite never f1 is kept, f2 becomes a hard link to the symlink, and
+// f2's metadata must not be applied through it. Also generated with the other overwrite modes,
+// with the symlink at the second member, and with a directory as link target (controls).
+func c18GenHardlinkFamily(h *H) *c18Case {
+	c := &c18Case{labels: map[string]bool{}}
+	c.lbl("family-hardlink-over-symlink")
+	c.lbl("hardlink")
+	names := []string{"a", "b", "c", "x"}
+	i := h.Intn(4)
+	n1, n2 := names[i], names[(i+1+h.Intn(3))%4]
+	mode := []os.FileMode{0666, 0777, 0600, 0400}[h.Intn(4)] // never the mode of outside/secret (0640)
+	mk := func(name string) *vNode {
+		return &vNode{Name: name, Type: data.NodeTypeFile, Mode: mode, Links: 2, Inode: 7,
+			Parts: [][]byte{[]byte("hardlinked-7")}}
+	}
+	nodes := []*vNode{mk(n1), mk(n2)}
+	if h.Intn(3) == 0 { // a third member
+		nodes = append(nodes, mk(names[(i+2)%4]+"3"))
+	}
+	dir := ""
+	up := ""
+	if h.Bool() {
+		dir = h.Pick(c18Names)
+		up = "../"
+		c.tree = []*vNode{{Name: dir, Type: data.NodeTypeDir, Mode: 0755, Children: nodes}}
+	} else {
+		c.tree = nodes
+	}
+	victim := n1
 	if h.Intn(5) == 0 {
+		victim = n2
+	}
+	p := c18Pre{path: filepath.Join("target", dir, victim), kind: "symlink", target: up + "../outside/secret"}
+	c.lbl("pre-symlink-to-outside-file")
+	switch h.Intn(6) {
+	case 0:
+		p.target = "$ABS/outside/secret"
+	case 1:
+		p.target = up + "../outside/sub"
+		c.lbl("pre-symlink-to-outside-dir")
+	}
+	c.pre = []c18Pre{p}
+	c.filter = "none"
+	c.del = h.Intn(4) == 0
+	if c.del {
+		c.lbl("delete")
+	}
+	c.ow = []string{"never", "never", "never", "always", "if-changed"}[h.Intn(5)]
+	c.lbl("ow-" + c.ow)
+	return c
+}
+
+func c18GenCase(h *H) *c18Case {
+	switch h.Intn(12) {
+	case 0, 1:
 		return c18GenChain(h)
+	case 2:
+		return c18GenHardlinkFamily(h)
 	}
 	c := &c18Case{labels: map[string]bool{}}
 	c.tree = c18GenTree(h, c, 0, "")
